@@ -96,8 +96,7 @@ Definition locs_prefix_free (ds : list str) : bool :=
 Definition art_empty (a : artifact) : bool :=
   match a with ADir f => fs_eqb f fs0 | AZip ms => is_none (hd_error ms) | ATar ms => is_none (hd_error ms) end.
 
-Definition hexlow (c : N) : bool := ((48 <=? c) && (c <=? 57)) || ((97 <=? c) && (c <=? 102)).
-Definition is_job_id (s : str) : bool := Nat.eqb (List.length s) 32 && forallb hexlow s.
+Definition is_job_id (s : str) : bool := Nat.eqb (List.length s) 32 && forallb lower_hex s.
 
 (* every entry of the workspace is the workspace, or lies in a job directory *)
 Definition contained (d : fs) : bool :=
